@@ -49,7 +49,7 @@ def valpool(kind):
 
 class C11(Property):
     id = "C11"
-    lean_module = "RosuModel.Props.C11"
+    lean_module = "RosuModel.Props.C11General"   # imports Props/C11.lean; both files are in namespace Rosu.C11
     namespace = "Rosu.C11"
     design_ref = "5.11"
     required_theorems = ["value_is_after_first_colon", "no_colon_no_value", "editor_reject_no_effect", "metadata_reject_no_effect",
@@ -58,13 +58,26 @@ class C11(Property):
                          "last_valid_wins_generic", "title_last_wins", "clamp_within", "slider_multiplier_clamped",
                          "slider_tick_rate_clamped", "ar_follows_od_until_set", "has_ar_monotone", "floatParse_not_nan",
                          "break_appended", "max_not_before", "breaks_prefix", "background_overwrites", "sprite_only_fills_empty",
-                         "video_rule", "color_alpha_ignored", "custom_colour_one_per_name", "combo_prefix_appends"]
+                         "video_rule", "color_alpha_ignored", "custom_colour_one_per_name", "combo_prefix_appends",
+                         # [General] (Props/C11General.lean)
+                         "generalKey_parse_eq", "general_reject_no_effect", "general_unknown_key_noop", "i32Parse_range",
+                         "flag_record", "flag_value", "flag_true_iff", "flag_invalid_rejected", "flag_get_set", "flag_set_frame",
+                         "mode_values", "mode_record", "countdown_values", "countdown_record", "sample_set_values", "sample_set_record",
+                         "audio_filename_record", "audio_filename_standardised", "audio_lead_in_integral", "audio_lead_in_accepted",
+                         "general_mode_last_valid_wins", "general_preview_time_last_valid_wins",
+                         # [Metadata] as a table (section_eq_table) and what follows from it
+                         "metadata_eq_table", "metadata_invalid_value_noop", "metadataTable_frame", "metadata_frame",
+                         "metadata_sets_own_field",
+                         # [General] as a table
+                         "general_eq_table", "general_step_cases"]
     partial_theorems = {
         "clamp_within / max_not_before": "proved under two order facts about `<` (irreflexive, asymmetric) taken as hypotheses; they hold for IEEE `<` "
                                         "but Lean's Float is opaque to the kernel, so for the float code they are exercised by the correspondence, not proved",
-        "last_valid_wins": "proved generically (last_valid_wins_generic) and instantiated for Title; the other fields share the same one-step shape but are "
-                           "not each instantiated — they are covered by the differential run against the table-driven oracle",
-        "general section": "the [General] keys (flags true only for value 1, mode, countdown, sample set) are modelled in Model/General.lean (see C12) and compared by the `gen` request; their decision-logic theorems are in Props/C11General.lean when present",
+        "last_valid_wins": "proved generically (last_valid_wins_generic) and instantiated for Title, [General] Mode and PreviewTime; the other fields share the same "
+                           "one-step shape but are not each instantiated — they are covered by the differential run against the table-driven oracle",
+        "section_eq_table": "proved for two whole sections: [Metadata] (metadata_eq_table, with invalid_value_noop and the frame property derived from the table) and "
+                            "[General] (general_eq_table: all fourteen keys with their conversions and error kinds). Editor, Difficulty, Events and Colours have per-key record "
+                            "theorems (slider_multiplier_clamped, break_appended, background_overwrites, …) but no single table statement",
     }
     level_text = ("Lean 4 theorems over the model of the record-section parsers (Editor, Metadata, Difficulty, Events, Colours; KeyValue): value = trimmed "
                   "text after the first colon (any further colons kept); rejected record ⇒ state unchanged, unknown key ⇒ accepted no-op; last valid "
@@ -72,11 +85,16 @@ class C11(Property):
                   "AR = OD until an ApproachRate record is accepted (invariant over every line sequence); background/video/sprite precedence; break end = max(start,end), "
                   "breaks only appended; colour alpha ignored, one custom colour per name, Combo* appends. Model tied to the code by the key × value-class matrix "
                   "(all keys × value classes × line forms, pairs, random sequences) compared field-by-field (floats by bits); an independent table-driven Rust reference "
-                  "is evaluated against the real parsers for the failing-input search.")
+                  "is evaluated against the real parsers for the failing-input search. [General] (Props/C11General.lean): rejected ⇒ unchanged, unknown key ⇒ accepted no-op; "
+                  "each of the five flags is set to true iff the value parses (i32 within ±(2^31−1)) to exactly 1, to false for every other in-range integer, and an invalid "
+                  "value rejects the record; Mode accepts exactly 0..3, Countdown / SampleSet the numbers 0..3 and their four names; AudioFilename only has backslashes turned "
+                  "into slashes; AudioLeadIn is an i32 then converted; last valid Mode / PreviewTime wins; the whole section equals an explicit fourteen-row key ↦ conversion+setter table "
+                  "(general_eq_table). [Metadata] is proved equal to an explicit key ↦ conversion+setter "
+                  "table (section_eq_table), from which invalid-value no-op and the frame property (a record changes at most its own field) are derived.")
     technique = "Lean 4 proof (decision-logic theorems over the section parser model) + differential correspondence on a key × value-class matrix"
     trusted_base = [
         "Lean 4.33.0 kernel; axioms ⊆ {propext, Classical.choice, Quot.sound} per #print axioms",
-        "hand-written model Model/{Text,Num,NumParse,KeyValue,Sections}.lean tied to /repo by this check's differential run",
+        "hand-written model Model/{Text,Num,NumParse,ParseNum,KeyValue,Sections,General}.lean tied to /repo by this check's differential run",
         "Rust std: str::{split,trim,find,replace,trim_matches}, i32/u8/f32/f64 FromStr (model codec validated by the codec differential in this run)",
     ]
     assumptions = [
